@@ -156,6 +156,9 @@ func TestVerifC01(t *testing.T) {
 		for _, a := range res.atts {
 			w.emit(a)
 		}
+		for _, a := range res.skels {
+			w.emit(a)
+		}
 		if len(res.panics) > 0 {
 			meta.emit(map[string]any{"scn": res.sc.ID, "panics": res.panics, "scenario": res.sc})
 		}
